@@ -63,7 +63,11 @@ func (pub *Pubkey) SetHexString(s string) error {
 	}
 	buf := s[len(PREFIX):]
 
-	pub.value.Unmarshal(common.Hex2Bytes(buf))
+	var v bn_curve.G2
+	if _, err := v.Unmarshal(common.Hex2Bytes(buf)); err != nil {
+		return err
+	}
+	pub.value = v
 	return nil
 }
 
